@@ -7,10 +7,10 @@ import traceback
 
 from harness import core, fr
 from harness.core import gq, gbool, gstr, glist, gnat
-from harness.props import c01
+from harness.props import c01, c18
 
 HEADER = """From FrameModel Require Import Num.QcTac Geometry.Rect Cases.Cmp Alloc.Alloc Alloc.Initial Cases.CmpC03
-  Alloc.InitialHist Cases.CmpC03Hist.
+  Alloc.InitialHist Cases.CmpC03Hist Geometry.RectCoincide.
 Open Scope Qc_scope."""
 
 ASSUMPTIONS = [
@@ -42,6 +42,12 @@ ASSUMPTIONS = [
     "demanded); every allocation must agree with the model on the values read back just before it and is judged by "
     "the oracle on those values.  The die's cells are checked to be unchanged by every operation; fixed modules are never moved; "
     "recenter_rectangles is only used where the centroid is a dyadic rational (so that its quotient is exact in binary64)",
+    "coincidence modules (feature 'coincide'): the rectangle (or default square) of a module is built from a target box - a "
+    "specialised region, a fixed cell, the clean die, a grid cell, a lattice box, a cell of the direct form - by "
+    "Geometry/RectCoincide.v::coincide (shared centre / corner x same shape / same area other shape / transposed / same width / "
+    "same height / same perimeter / same aspect ratio); where the target is a cell of the observed die the correspondence also "
+    "requires the module's rectangle to equal the model's construction from that cell.  Twin modules (feature 'twin'): a module "
+    "whose rectangle or square is identical to that of another module",
 ]
 
 TAGS = ["#", "#", "dsp", "BRAM", "r_1"]
@@ -111,11 +117,70 @@ def disjoint_boxes(rng, W, H, q, n, attach=True):
     return out
 
 
-def gen_modules(rng, W, H, q, features, sides=SIDES, lattice=None):
+def coincide_module(rng, name, target, co_list, anchor=None, rel=None, form=None):
+    """a movable module whose rectangle (or default square) shares a point with the box `target` and whose shape stands in
+    a stated relation to the target's (Geometry/RectCoincide.v); None if the result would not be a legal input"""
+    t = {"cx": (target[0] + target[2]) / 2, "cy": (target[1] + target[3]) / 2, "w": target[2] - target[0], "h": target[3] - target[1]}
+    anchor = anchor or rng.choice(c18.ANCHORS)
+    rel = rel or rng.choice(c18.RELS)
+    w, h, p = c18.coincide_shape(rng, rel, t["w"], t["h"])
+    cx, cy = c18.coincide_geom(t, anchor, w, h)
+    if cx < 0 or cy < 0:                                 # parse_yaml_rectangle wants a non-negative centre
+        anchor = "centre"
+        cx, cy = t["cx"], t["cy"]
+    form = form or rng.choice(["square", "square", "soft", "soft", "hard", "soft2"])
+    if form == "square" and w != h:
+        form = "soft"
+    rect = [cx, cy, w, h]
+    if form == "square":
+        m = {"name": name, "kind": "soft", "area": w * w, "center": [cx, cy], "rects": []}
+    elif form == "hard":
+        m = {"name": name, "kind": "hard", "rects": [rect]}
+    else:
+        rects = [rect]
+        if form == "soft2":                              # a second rectangle abutting the first on the east
+            e = rng.choice([F(1, 2), F(1), h]) if h > 0 else F(1)
+            rects.append([cx + w / 2 + F(1, 2), cy, F(1), min(e, h)])
+        m = {"name": name, "kind": "soft", "area": sum((r[2] * r[3] for r in rects), F(0)), "center": None, "rects": rects}
+    co_list.append({"m": name, "t": list(target), "a": anchor, "rel": rel, "p": p})
+    return m
+
+
+def twin_module(rng, name, other):
+    """a movable module whose rectangle / default square is identical to one of `other`'s"""
+    if other["rects"]:
+        r = list(rng.choice(other["rects"]))[:4]
+    else:
+        if other.get("center") is None:
+            return None
+        a = sum(other["area"].values()) if isinstance(other["area"], dict) else other["area"]
+        sq = c18.exact_root(a)
+        if sq is None:
+            return None
+        r = [other["center"][0], other["center"][1], sq, sq]
+    form = rng.choice(["square", "square", "soft", "hard"])
+    if form == "square" and r[2] == r[3]:
+        return {"name": name, "kind": "soft", "area": r[2] * r[2], "center": [r[0], r[1]], "rects": []}
+    if form == "hard":
+        return {"name": name, "kind": "hard", "rects": [r]}
+    return {"name": name, "kind": "soft", "area": r[2] * r[3], "center": None, "rects": [r]}
+
+
+def gen_modules(rng, W, H, q, features, sides=SIDES, lattice=None, targets=None, co_list=None, others=()):
     modules = []
+    co_list = co_list if co_list is not None else []
     for i in range(rng.choice([0, 1, 1, 2, 2, 3, 4])):
-        kind = rng.choices(["square", "soft", "hard", "tile"], [5, 3, 3, 2 if lattice else 0])[0]
-        if kind == "tile":
+        kind = rng.choices(["square", "soft", "hard", "tile", "coincide", "twin"],
+                           [5, 3, 3, 2 if lattice else 0, 2 if targets else 0, 1 if (modules or others) else 0])[0]
+        if kind == "coincide":
+            m = coincide_module(rng, f"C{i}", rng.choice(targets), co_list)
+            features.append("coincide")
+        elif kind == "twin":
+            m = twin_module(rng, f"W{i}", rng.choice(modules + list(others)))
+            if m is None:
+                continue
+            features.append("twin")
+        elif kind == "tile":
             # a soft module whose rectangles tile a lattice-aligned box exactly (ratio 1 in the cells it fills)
             xs, ys = lattice
             i0, j0 = rng.randrange(len(xs) - 1), rng.randrange(len(ys) - 1)
@@ -203,7 +268,9 @@ def gen_direct(rng):
             used.add(tuple(map(tuple, [r])))
         features.append("fixed-" + style)
         modules.append({"name": f"F{k}", "kind": "fixed", "rects": [box2rect(fix_box(r)) for r in rects]})
-    modules += gen_modules(rng, x0 + W, y0 + H, q, features)
+    co_list = []
+    modules += gen_modules(rng, x0 + W, y0 + H, q, features, targets=[list(b) for b in boxes], co_list=co_list,
+                           others=list(modules))
     rng.shuffle(modules)
     if not modules:
         modules.append({"name": "S0", "kind": "soft", "area": F(1), "center": [x0 + W / 2, y0 + H / 2], "rects": []})
@@ -213,7 +280,7 @@ def gen_direct(rng):
         cells.append({"cx": r[0], "cy": r[1], "w": r[2], "h": r[3], "fixed": rng.random() < 0.06, "hard": False,
                       "region": rng.choice(["_", "_", "dsp"]), "loc": "NOPOLY"})
     return {"stream": "exact", "form": "direct", "cells": cells, "modules": modules, "inc0": rng.random() < 0.4,
-            "features": sorted(set(features)), "regions": [], "refine": None}
+            "features": sorted(set(features)), "regions": [], "refine": None, "co": co_list}
 
 
 def gen_case(rng, stream=None):
@@ -258,12 +325,31 @@ def gen_case(rng, stream=None):
         modules.append({"name": f"F{k}", "kind": "fixed", "rects": [box2rect(b) for b in mine]})
         k += 1
     features = []
-    modules += gen_modules(rng, W, H, q, features, SIDES_DEC if dec else SIDES, (xs, ys))
+    co_list = []
+    targets = None
+    if not dec:
+        # boxes that are (or may be) cells of the die: specialised regions, fixed cells, the clean die or a cell of its
+        # grid, some lattice boxes
+        targets = [[r[0] - r[2] / 2, r[1] - r[3] / 2, r[0] + r[2] / 2, r[1] + r[3] / 2] for r in regions if r[4] != "#"]
+        targets += [list(b) for m in modules for b in
+                    ([r[0] - r[2] / 2, r[1] - r[3] / 2, r[0] + r[2] / 2, r[1] + r[3] / 2] for r in m["rects"])]
+        if not rects:
+            if refine and refine[0] == "grid":
+                nr, nc = refine[1], refine[2]
+                i, j = rng.randrange(nc), rng.randrange(nr)
+                targets.append([W / nc * i, H / nr * j, W / nc * (i + 1), H / nr * (j + 1)])
+            else:
+                targets.append([F(0), F(0), W, H])
+        for _ in range(2):
+            i0, j0 = rng.randrange(len(xs) - 1), rng.randrange(len(ys) - 1)
+            targets.append([xs[i0], ys[j0], xs[rng.randrange(i0 + 1, len(xs))], ys[rng.randrange(j0 + 1, len(ys))]])
+    modules += gen_modules(rng, W, H, q, features, SIDES_DEC if dec else SIDES, (xs, ys), targets=targets, co_list=co_list,
+                           others=() if dec else list(modules))
     rng.shuffle(modules)
     if not modules:
         modules.append({"name": "S0", "kind": "soft", "area": F(1), "center": [W / 2, H / 2], "rects": []})
     return {"stream": stream, "form": "die", "W": W, "H": H, "regions": regions, "modules": modules, "refine": refine,
-            "inc0": rng.random() < 0.4, "features": sorted(set(features))}
+            "inc0": rng.random() < 0.4, "features": sorted(set(features)), "co": co_list}
 
 
 # --------------------------------------------------------------------------
@@ -311,6 +397,8 @@ def rename(case, rng):
         return case
     table = {m["name"]: n for m, n in zip(mods, new)}
     case = dict(case, modules=[dict(m, name=table[m["name"]]) for m in mods])
+    if case.get("co"):
+        case["co"] = [dict(c, m=table[c["m"]]) for c in case["co"]]
     if "ops" in case:
         case["ops"] = [[op[0], table[op[1]]] + list(op[2:]) if op[0] not in ("probe", "alloc") else op for op in case["ops"]]
     return case
@@ -332,6 +420,67 @@ def gen_tie(rng):
             {"name": "S1", "kind": "soft", "area": F(1), "center": [cw + 1, h / 2], "rects": []}]
     return {"stream": "exact", "form": "direct", "cells": cells, "modules": mods, "inc0": False,
             "features": ["direct", "tie-" + how], "regions": [], "refine": None}
+
+
+CO_DIMS = [(F(4), F(1)), (F(1), F(4)), (F(8), F(2)), (F(2), F(8)), (F(9), F(1)), (F(1), F(9)), (F(9, 4), F(1)), (F(1), F(1, 4)),
+           (F(2), F(1, 2)), (F(3), F(3, 4)), (F(2), F(3)), (F(3, 2), F(4)), (F(4), F(4)), (F(2), F(2)), (F(6), F(3, 2)),
+           (F(1, 2), F(2)), (F(5), F(5, 4)), (F(3), F(2))]
+
+
+def gen_coincide(rng, idx):
+    """the systematic stream: every (shared point) x (shape relation), in turn, on a target that IS a cell: a specialised region,
+    a clean die, a cell of a gridded die, a cell of the direct form; the module as a default square where the relation gives a
+    square (a soft module of area 4 centred on a 4x1 region), else as a soft / hard rectangle; plus a twin and random modules"""
+    import itertools
+    combos = list(itertools.product(c18.ANCHORS, c18.RELS))
+    anchor, rel = combos[idx % len(combos)]
+    form = ["region", "flat", "grid", "direct"][(idx // len(combos)) % 4]
+    tw, th = rng.choice(CO_DIMS)
+    feats = ["coincide", "coincide-" + form]
+    co_list = []
+    regions, refine, cells = [], None, None
+    if form == "region":
+        x0, y0 = F(rng.randrange(0, 13), 2), F(rng.randrange(0, 13), 2)
+        W, H = x0 + tw + F(rng.randrange(0, 9), 2), y0 + th + F(rng.randrange(0, 9), 2)
+        target = [x0, y0, x0 + tw, y0 + th]
+        regions = [box2rect(target, rng.choice(["dsp", "BRAM", "r_1"]))]
+        if x0 >= 1 and rng.random() < 0.5:                    # something else on the die, left of the target
+            regions.append(box2rect([F(0), F(0), x0 / 2, H / 2], rng.choice(TAGS)))
+    elif form == "flat":
+        W, H = tw, th
+        target = [F(0), F(0), W, H]
+    elif form == "grid":
+        nr, nc = rng.choice([(1, 2), (2, 1), (2, 2), (4, 2), (2, 4), (1, 4)])
+        W, H = tw * nc, th * nr
+        refine = ["grid", nr, nc]
+        i, j = rng.randrange(nc), rng.randrange(nr)
+        target = [tw * i, th * j, tw * (i + 1), th * (j + 1)]
+    else:
+        x0, y0 = F(rng.randrange(0, 9), 2), F(rng.randrange(0, 9), 2)
+        target = [x0, y0, x0 + tw, y0 + th]
+        W, H = x0 + tw + 2, y0 + th
+        boxes = [target, [x0 + tw, y0, x0 + tw + 2, y0 + th]]
+        if rng.random() < 0.5:
+            boxes.reverse()
+        cells = [{"cx": (b[0] + b[2]) / 2, "cy": (b[1] + b[3]) / 2, "w": b[2] - b[0], "h": b[3] - b[1], "fixed": False,
+                  "hard": False, "region": rng.choice(["_", "_", "dsp"]), "loc": "NOPOLY"} for b in boxes]
+    mods = [coincide_module(rng, "C0", target, co_list, anchor, rel)]
+    if rng.random() < 0.4:
+        t = twin_module(rng, "W1", mods[0])
+        if t is not None:
+            mods.append(t)
+            feats.append("twin")
+    if rng.random() < 0.4:                                    # a second coincidence on the same cell (ratios add up, may exceed 1)
+        mods.append(coincide_module(rng, "C2", target, co_list))
+    mods += [dict(m, name="X" + m["name"]) for m in gen_modules(rng, W, H, F(1, 4), feats, SIDES, None)[:2]]
+    rng.shuffle(mods)
+    case = {"stream": "exact", "form": "direct" if form == "direct" else "die", "regions": regions, "modules": mods,
+            "refine": refine, "inc0": rng.random() < 0.4, "features": sorted(set(feats)), "co": co_list}
+    if form == "direct":
+        case["cells"] = cells
+    else:
+        case["W"], case["H"] = W, H
+    return case
 
 
 def gen_extra(rng):
@@ -536,11 +685,41 @@ def is_pow2(x):
     return x > 0 and (x.numerator & (x.numerator - 1)) == 0 and (x.denominator & (x.denominator - 1)) == 0
 
 
+def co_conjuncts(case, obs):
+    """the coincidence modules whose target is a cell of the observed die: the module's rectangle (or default square) must be
+    the model's construction (Geometry/RectCoincide.v::coincide) from that cell"""
+    out = []
+    cells = {rbox(r): r for r in obs["refinable"] + obs["fixed"]}
+    mods = {m["name"]: m for m in obs["modules"]}
+    for co in case.get("co") or []:
+        cell = cells.get(tuple(core.frac(v) for v in co["t"]))
+        m = mods.get(co["m"])
+        if cell is None or m is None:
+            continue
+        if m["rects"]:
+            rs = m["rects"]                  # the netlist orders the rectangles of a module its own way: one of them
+        else:
+            sq = qsqrt(m["area"])
+            if sq is None or m["center"] is None:
+                continue
+            rs = [{"cx": m["center"][0], "cy": m["center"][1], "w": sq, "h": sq}]
+        C = fr.grect(cell)
+        out.append(f"existsb (geom_eqb (coincide {c18.GANCHOR[co['a']]} {c18.gshaperel(co)} {C} {C})) "
+                   f"{glist([fr.grect(r) for r in rs])}")
+    return out
+
+
 def to_coq(case, obs):
     if "ops" in case:
         return hist_to_coq(case, obs)
     if obs["setup"] != "ok" or case.get("stream") == "decimal":
         return "true"                     # decimal stream: oracle only (the theorems speak about exact arithmetic)
+    extra = co_conjuncts(case, obs)
+    main = to_coq_main(case, obs)
+    return " && ".join(extra + [f"({main})"]) if extra else main
+
+
+def to_coq_main(case, obs):
     table = []
     for m in obs["modules"]:
         if not m["rects"]:
@@ -1161,7 +1340,14 @@ def run(ctx, out, replay=None):
                 "of each other or YAML-special (H1 / H1_0 / H1_io / M / M_ / yes / null / on ...), S1 .. S16; regions reversed / "
                 "shuffled / top-down, modules reversed, rectangles of a module shuffled; dies gridded into 9 .. 100 cells or split "
                 "into 9 .. 100 regions; 9 - 16 movable modules; a fixed module whose share of a cell is exactly the tolerance "
-                "1e-6, just below and just above it.  Object histories: such a die-form "
+                "1e-6, just below and just above it.  Coincidence stream (Geometry/RectCoincide.v): every combination of a shared "
+                "point (centre / ll / ur / lr / ul corner) x a shape relation (same shape, same area other shape, transposed, same "
+                "width, same height, same perimeter, same aspect ratio) between a module's rectangle or default square and a CELL "
+                "(a specialised region, the clean die, a cell of a gridded die, a cell of the direct form; cell shapes 4x1, 8x2, "
+                "9x1, 2x1/2 ... so that the square of the same area is dyadic: soft module of area 4 centred on a 4x1 region), "
+                "with a twin module (identical rectangle / square in another module) and a second coincidence on the same cell; "
+                "the same two module kinds occur at a lower rate in every other stream (targets: regions, fixed cells, clean die, "
+                "grid cell, lattice boxes, direct cells) and hence in the histories.  Object histories: such a die-form "
                 "exact case with at least one movable module, whose Netlist / Die objects go through 2-12 operations before the "
                 "final allocation - templates: read the boxes then move a module in place (stale-box), allocate / move / "
                 "allocate, set the module centre and recenter_rectangles, allocate then move the centre of a module that was "
@@ -1176,6 +1362,9 @@ def run(ctx, out, replay=None):
     xrng = __import__("random").Random(f"C03-extra-{ctx.seed}")
     for _ in range(250 if ctx.quick() else 2500):
         cases.append(gen_extra(xrng))
+    crng = __import__("random").Random(f"C03-coincide-{ctx.seed}")
+    for k in range(280 if ctx.quick() else 2800):
+        cases.append(gen_coincide(crng, k))
     nh = 700 if ctx.quick() else 6000
     hrng = __import__("random").Random(f"C03-hist-{ctx.seed}")
     for _ in range(nh):
